@@ -18,13 +18,17 @@ SETUPS = {
     "S_2": ([["alloc_bytes", 2], ["alloc_bytes", 3, "handover"], ["alloc_bytes", 4], ["alloc_bytes", 5], ["free_slot", 0], ["free_slot", 2]],
             {"0": 16, "1": 8, "2": 24, "3": 16}, (48, 8)),
     "S_E": ([["alloc_bytes", 2, "handover"]], {"0": 16}, (32, 16)),
+    # S_T : a(24) b(24 -> T2) c(16); free a  => full arena, free list [32: size 16], T2 holds [56, 80) (a block that becomes a 16-byte segment)
+    "S_T": ([["alloc_bytes", 2], ["alloc_bytes", 3, "handover"], ["alloc_bytes", 4], ["free_slot", 0]], {"0": 24, "1": 24, "2": 16}, (56, 24)),
 }
-SETUP_STEPS = {"S_HN": 24, "S_H": 24, "S_2": 36, "S_E": 8}
+SETUP_STEPS = {"S_HN": 24, "S_H": 24, "S_2": 36, "S_E": 8, "S_T": 24}
 ALLOC = [["alloc_bytes", 2]]
 ALLOC_FREE = [["alloc_bytes", 2], ["free_last"]]
 DEALLOC = [["free_given", 2, 3, 0]]
 DEALLOC_ALLOC = [["free_given", 2, 3, 0], ["alloc_bytes", 4]]
 TOUCH_DEALLOC = [["touch_given", 2, 3], ["free_given", 2, 3, 0]]
+TYPED_U64_FREE = [["alloc_typed", "u64"], ["free_last"]]
+ALIGNED_U32_FREE = [["alloc_aligned", 2, "u32"], ["free_last"]]
 ALLOC_DROP = [["alloc_bytes", 2], ["check_last"], ["drop_arena"]]
 TOUCH_DROP = [["touch_given", 2, 3], ["clone_drop"], ["drop_arena"]]
 
@@ -43,7 +47,7 @@ class Q:
         sp, sargs, given = SETUPS[self.setup]
         progs = [sp, self.p1] + ([self.p2] if self.p2 is not None else [])
         args = {"0": dict(sargs), "1": {}}
-        if any(a[0] == "alloc_bytes" for a in self.p1):
+        if any(a[0] in ("alloc_bytes", "alloc_aligned") for a in self.p1):
             args["1"]["0"] = list(self.n1)
         if any(a[0] == "free_given" for a in self.p1):
             args["1"].update({"0": given[0], "1": given[1]})
@@ -81,6 +85,9 @@ def families():
         qs.append(Q("safe_alloc_vs_dealloc_%s_sw2_d" % tag, ["C02"], "quick" if tag == "opt" else "thorough", "safe", fl, "S_H", ALLOC, DEALLOC, [22, 14], 2, 2))
         qs.append(Q("safe_alloc_vs_alloc_%s_sw2" % tag, ["C02"], "thorough", "safe", fl, "S_2", ALLOC, ALLOC, [24, 24], 2, 1, n1=(1, 16)))
         qs.append(Q("safe_alloc_vs_dealloc_%s_sw3" % tag, ["C02"], "thorough", "safe", fl, "S_H", ALLOC, DEALLOC, [24, 16], 3, 1, timeout=1800))
+    # typed / aligned allocations served from the list (pad::<T>() + re-alignment inside the segment) against a concurrent release
+    qs.append(Q("safe_typed_u64_vs_dealloc_opt_sw2", ["C02"], "thorough", "safe", "Optimistic", "S_T", TYPED_U64_FREE, DEALLOC, [30, 14], 2, 2, timeout=2400))
+    qs.append(Q("safe_aligned_u32_vs_dealloc_pess_sw2", ["C02"], "thorough", "safe", "Pessimistic", "S_T", ALIGNED_U32_FREE, DEALLOC, [30, 16], 2, 2, n1=(0, 8), timeout=2400))
     # a thread that still holds a reference to a node another thread has popped, filled and will check (stale reference)
     qs.append(Q("safe_allocfree_vs_alloc_opt_sw3_stale", ["C02"], "thorough", "safe", "Optimistic", "S_HN", ALLOC_FREE, ALLOC, [30, 22], 3, 2, n1=(1, 8), timeout=3000))
     qs.append(Q("safe_allocfree_vs_alloc_pess_sw3_stale", ["C02"], "thorough", "safe", "Pessimistic", "S_HN", ALLOC_FREE, ALLOC, [30, 24], 3, 2, n1=(1, 8), timeout=2400))
@@ -185,8 +192,12 @@ def replay_input(cex, path, file_path=None):
         for a in prog:
             if a[0] == "alloc_bytes":
                 acts.append("%s:%d" % ("alloc_bytes_handover" if len(a) > 2 and a[2] == "handover" else "alloc_bytes", args[a[1] - 2]))
+            elif a[0] == "alloc_typed":
+                acts.append("alloc_typed:%s" % a[1])
+            elif a[0] == "alloc_aligned":
+                acts.append("alloc_aligned:%d:%s" % (args[a[1] - 2], a[2]))
             elif a[0] == "free_last":
-                nalloc = sum(1 for b in prog[: prog.index(a)] if b[0] == "alloc_bytes")
+                nalloc = sum(1 for b in prog[: prog.index(a)] if b[0] in ("alloc_bytes", "alloc_typed", "alloc_aligned"))
                 acts.append("free_slot:%d" % (nalloc - 1))
             elif a[0] in ("free_slot", "forget_slot", "check_slot"):
                 acts.append("%s:%d" % (a[0], a[1]))
